@@ -30,6 +30,9 @@ type c12Cell struct {
 	// Int: 1 = TriggerIRQ() before the step, 2 = NMI pending; the interrupt vectors point to $00:2000 where the same
 	// opcode sits, so the step that enters the handler executes it there
 	Int byte `json:"int,omitempty"`
+	// Fork: the step is made by a CPU initialised from the loaded one with InitFrom (an object that has been the
+	// destination of InitFrom before); the loaded CPU must not notice
+	Fork bool `json:"fork,omitempty"`
 }
 
 func c12CellCheck(c c12Cell) error {
@@ -67,11 +70,20 @@ func c12CellCheck(c c12Cell) error {
 			cpu.SetInterrupt(interruptNMI)
 		}
 	}
+	var parent rig.CPU
+	var parentRaw rig.Raw
+	if c.Fork {
+		parent, parentRaw = cpu, cpu.Raw()
+		cpu = cpu.Fork()
+	}
 	n, stopped, p := cpu.Step()
 	if p != nil {
 		return fmt.Errorf("%s opcode %02x (interrupt request %d): Step panicked: %v", c.Impl, c.Op, c.Int, p)
 	}
 	after := cpu.Raw()
+	if parent != nil && parent.Raw() != parentRaw {
+		return fmt.Errorf("%s opcode %02x: a Step of the CPU made with InitFrom changed the CPU it was initialised from: %+v -> %+v", c.Impl, c.Op, parentRaw, parent.Raw())
+	}
 	if n < 1 {
 		return fmt.Errorf("%s opcode %02x (%s) with P=%02x E=%v D=%04x X=%04x Y=%04x: Step reported %d cycles (must be >= 1)", c.Impl, c.Op, wdc.Optab[c.Op].Mn, c.P, c.E, c.D, c.X, c.Y, n)
 	}
@@ -102,7 +114,12 @@ type c12RunCase struct {
 	// (at the judged addresses moved to the neighbouring bank) as the judged run will have; the callback map object
 	// is then changed in place to the judged addresses
 	Warm bool `json:"warm,omitempty"`
+	// PanicOnce (no Logger, no warm-up): the callback of OnPC[0] panics the first time it runs; the caller
+	// recovers the panic that comes out of RunUntil and calls RunUntil again with the same arguments
+	PanicOnce bool `json:"panic_once,omitempty"`
 }
+
+const c12HookFailure = "c12: the hook failed"
 
 var (
 	sysOnce sync.Once
@@ -187,6 +204,7 @@ func c12RunCheck(c c12RunCase) error {
 	var wantWDM []byte // operand bytes of the WDM instructions the specification loop executes (read from memory, not from the CPU)
 	var cycles uint64
 	executed := 0
+	specFailed := false
 	wantWarm := map[uint32]int{}
 	if c.Warm && pcOf(twin.Raw()) != c.Target {
 		at := pcOf(twin.Raw())
@@ -204,6 +222,12 @@ func c12RunCheck(c c12RunCase) error {
 		at := pcOf(twin.Raw())
 		if isOnPC[at] {
 			wantCalls[at]++
+			if c.PanicOnce && at == c.OnPC[0] && !specFailed {
+				// the hook panics out of Step before anything was fetched; the second RunUntil call starts with a fresh budget
+				specFailed = true
+				cycles = 0
+				continue
+			}
 		}
 		if mt.Peek(at) == 0x42 {
 			wantWDM = append(wantWDM, mt.Peek(at&0xff0000|uint32(uint16(at)+1)))
@@ -231,6 +255,7 @@ func c12RunCheck(c c12RunCase) error {
 	// the real thing
 	ms := load(scpu)
 	gotCalls := map[uint32]int{}
+	hookFailed := false
 	var cbErr, cbOrderErr error
 	sys.CPU.OnPC = map[uint32]func(){}
 	if c.Warm {
@@ -277,6 +302,10 @@ func c12RunCheck(c c12RunCase) error {
 			if len(ms.Log) > 0 && cbOrderErr == nil {
 				cbOrderErr = fmt.Errorf("OnPC callback of $%06X ran after the step already accessed the bus (%+v)", a, ms.Log[0])
 			}
+			if c.PanicOnce && a == c.OnPC[0] && !hookFailed {
+				hookFailed = true
+				panic(c12HookFailure)
+			}
 		}
 	}
 	// the log must be empty at the start of every step: clear it from a wrapper around the memory
@@ -296,24 +325,31 @@ func c12RunCheck(c c12RunCase) error {
 	}
 	// clear the access log whenever a new instruction starts: approximated by clearing in the logger and
 	// before the run; without a logger the "before the fetch" check only applies to the first step.
-	done := make(chan bool, 1)
 	var ret bool
 	var pan interface{}
-	go func() {
-		defer func() {
-			pan = recover()
-			done <- true
+	for attempt := 0; attempt < 2; attempt++ {
+		done := make(chan bool, 1)
+		pan = nil
+		go func() {
+			defer func() {
+				pan = recover()
+				done <- true
+			}()
+			ret = sys.RunUntil(c.Target, c.Max)
 		}()
-		ret = sys.RunUntil(c.Target, c.Max)
-	}()
-	select {
-	case <-done:
-	case <-time.After(30 * time.Second):
-		err := fmt.Errorf("RunUntil($%06X, %d) did not return within 30 s (budget is at most %d iterations)", c.Target, c.Max, c.Max)
-		if c12OnHang != nil {
-			c12OnHang(c, err) // does not return: the stuck goroutine keeps a core busy, nothing else can be trusted to finish
+		select {
+		case <-done:
+		case <-time.After(30 * time.Second):
+			err := fmt.Errorf("RunUntil($%06X, %d) did not return within 30 s (budget is at most %d iterations)", c.Target, c.Max, c.Max)
+			if c12OnHang != nil {
+				c12OnHang(c, err) // does not return: the stuck goroutine keeps a core busy, nothing else can be trusted to finish
+			}
+			return err
 		}
-		return err
+		if !(c.PanicOnce && attempt == 0 && pan == c12HookFailure) {
+			break
+		}
+		// the hook failed once; the caller recovered and calls RunUntil again: the run goes on from where it was
 	}
 	sys.Logger = nil
 	sys.CPU.OnPC, sys.CPU.OnWDM = nil, nil
@@ -339,6 +375,11 @@ func c12RunCheck(c c12RunCase) error {
 		return fmt.Errorf("RunUntil returned %v but PC is $%06X and the target $%06X", ret, pcOf(rs), c.Target)
 	}
 	for _, a := range c.OnPC {
+		if c.PanicOnce && specFailed && a == c.OnPC[0] && gotCalls[a] == wantCalls[a]-1 {
+			// (the call that panicked came before a fetch that then did not happen: whether the retried fetch is
+			// preceded by a second call is not for the statement to say; the probe at the end asks about later fetches)
+			continue
+		}
 		if gotCalls[a] != wantCalls[a] {
 			return fmt.Errorf("OnPC callback of $%06X ran %d times, %d instructions were fetched there (target $%06X)", a, gotCalls[a], wantCalls[a], c.Target)
 		}
@@ -426,6 +467,18 @@ func c12RunCheck(c c12RunCase) error {
 		}
 		if st != (op == 0xDB) {
 			return fmt.Errorf("first Step after Reset (opcode %02x) reported stopped=%v", op, st)
+		}
+	}
+	if c.PanicOnce && specFailed {
+		// long after the failure: an instruction fetched at the address of the callback that once panicked is preceded by
+		// exactly one call of it, like any other
+		calls := 0
+		sys.CPU.OnPC = map[uint32]func(){c.OnPC[0]: func() { calls++ }}
+		sys.SetPC(c.OnPC[0])
+		_, _, p := scpu.Step()
+		sys.CPU.OnPC = nil
+		if p == nil && calls != 1 {
+			return fmt.Errorf("the callback of $%06X panicked once earlier (recovered by the caller); a later Step that fetches at that address called it %d times", c.OnPC[0], calls)
 		}
 	}
 	return nil
@@ -521,6 +574,28 @@ func TestC12(t *testing.T) {
 						}
 					}
 				}
+				// the same step on a CPU made with InitFrom (into an object that was initialised that way before)
+				var nf int64
+				for _, impl := range []string{"cpu65c816", "cpualt"} {
+					for op := 0; op < 256 && !fail; op++ {
+						for _, mode := range []struct {
+							e bool
+							p byte
+						}{{true, 0x30}, {false, 0x00}, {false, 0x30}} {
+							operand := uint32(0x7F1200)
+							if md := wdc.Optab[op].Md; md == wdc.MRel8 || md == wdc.MRel16 {
+								operand = 2
+							}
+							c := c12Cell{Impl: impl, Op: byte(op), P: mode.p, E: mode.e, PC: 0x1000, Operand: operand, Fork: true}
+							nf++
+							if !r.CheckSweep("cell", c, func() error { return c12CellCheck(c) }) {
+								fail = true
+							}
+						}
+					}
+				}
+				n += nf
+				ev.ClassN("A/cells-stepped-on-an-InitFrom-copy", nf)
 				n += ni
 				ev.ClassN("A/cells-with-an-interrupt-request", ni)
 				ev.Bulk(n, n)
@@ -643,6 +718,10 @@ func TestC12(t *testing.T) {
 				if d.Intn("warm", 4) == 0 {
 					c.Warm = true
 					ev.Class("B/one-instruction-run-first-then-callback-map-changed-in-place")
+				}
+				if len(c.OnPC) > 0 && c.OnPC[0] != c.Target && !c.Logger && !c.Warm && c.Max <= 4000 && d.Intn("hook-panics-once", 3) == 0 {
+					c.PanicOnce = true
+					ev.Class("C/callback-panics-once-RunUntil-called-again")
 				}
 				r.Check(t, "run", c, func() error { return c12RunCheck(c) })
 				nt := c.Max <= cyc || ti >= 0
